@@ -1,6 +1,7 @@
 package crdtx
 
 import (
+	"context"
 	"fmt"
 	"math/bits"
 	"sort"
@@ -8,6 +9,7 @@ import (
 
 	"github.com/ipfs/go-cid"
 
+	"github.com/sourcenetwork/defradb/internal/db"
 	"github.com/sourcenetwork/defradb/internal/verifh/vkv"
 	"github.com/sourcenetwork/defradb/internal/verifh/world"
 )
@@ -196,8 +198,77 @@ func StdCheck(e *Explorer, w *worker, prev, ns *State, j int, label string, merg
 	if old, same := e.PathIndependence(MergedKey(ns, ns.M[j]), ob.Canon, path()); !same {
 		add("C01", "diverged", fmt.Sprintf("same merged set, different observable:\n  now  %s\n  via %v\n  then %s", ob.Canon, old.Path(), old.Canon()))
 	}
-	_ = bits.OnesCount64
+	// ---- C03 on branching histories: the document at every merged commit ----
+	if cfg.TimeTravel {
+		for _, c := range ns.commits {
+			if ns.M[j]&(1<<uint(c.Ord)) == 0 {
+				continue
+			}
+			if msg := TimeTravelCheck(w.ctx, cfg, w.dbs[j], e.docID, ns.commits, c); msg != "" {
+				kind := "time-travel-branching"
+				if bits.OnesCount64(c.Par) <= 1 && linear(ns.commits, c) {
+					kind = "time-travel-linear"
+				}
+				if strings.HasPrefix(msg, "HANG") {
+					kind = "time-travel-hang"
+				}
+				add("C03", kind, fmt.Sprintf("n%d at c%d: %s", j, c.Ord, msg))
+				break
+			}
+		}
+	}
 	return vs
+}
+
+func linear(commits []*Commit, c *Commit) bool {
+	for _, x := range commits {
+		if c.Anc&(1<<uint(x.Ord)) != 0 && bits.OnesCount64(x.Par) > 1 {
+			return false
+		}
+	}
+	return true
+}
+
+// TimeTravelCheck queries the document at commit c and compares with the reference state of c's
+// ancestor closure (each ancestor applied once).
+func TimeTravelCheck(ctx context.Context, cfg *Config, d *db.DB, docID string, commits []*Commit, c *Commit) string {
+	fields := append(append([]string{}, cfg.Registers...), cfg.Counters...)
+	req := fmt.Sprintf(`query { %s(cid: %q, docID: %q) { _docID %s } }`, cfg.Coll, c.Cid.String(), docID, strings.Join(fields, " "))
+	data, errs, hung, pan := world.ExecGuard(ctx, d, req)
+	if hung {
+		return "HANG: the query at that commit does not return"
+	}
+	if pan != nil {
+		return fmt.Sprint("PANIC: ", pan)
+	}
+	if len(errs) > 0 {
+		return "query at commit failed: " + strings.Join(errs, ";")
+	}
+	ref := Reference(cfg, commits, c.Anc)
+	rows := world.Rows(data, cfg.Coll)
+	if ref.Deleted {
+		// the state of a delete commit: the property does not say whether a deleted document is listed;
+		// only the values are compared when it is.
+		if len(rows) == 0 {
+			return ""
+		}
+	}
+	if len(rows) != 1 {
+		return fmt.Sprintf("%d rows", len(rows))
+	}
+	for _, f := range cfg.Counters {
+		got, _ := rows[0][f].(int64)
+		if got != ref.Counters[f] {
+			return fmt.Sprintf("%s=%d, sum of increments up to that commit %d", f, got, ref.Counters[f])
+		}
+	}
+	for _, f := range cfg.Registers {
+		got := world.Canon(rows[0][f])
+		if !ref.Allowed[f][got] {
+			return fmt.Sprintf("%s=%s, latest writes up to that commit {%s}", f, got, keysOf(ref.Allowed[f]))
+		}
+	}
+	return ""
 }
 
 func sameHeads(a, b map[string]uint64) bool {
